@@ -350,7 +350,9 @@ func parent(id, tier string) int {
 	if tier == "thorough" {
 		timeout = 3 * time.Hour
 	}
-	if ct, ok := p.(interface{ ChildTimeout(tier string) time.Duration }); ok {
+	if ct, ok := p.(interface {
+		ChildTimeout(tier string) time.Duration
+	}); ok {
 		timeout = ct.ChildTimeout(tier)
 	}
 	if s := os.Getenv("VERIF_CHILD_TIMEOUT_S"); s != "" {
@@ -509,27 +511,29 @@ func parent(id, tier string) int {
 	if len(samples) == 0 {
 		samples = []any{"(no sample recorded)"}
 	}
-	exh, _ := p.(interface{ Exhaustive(tier string) (bool, string) })
+	exh, _ := p.(interface {
+		Exhaustive(tier string) (bool, string)
+	})
 	cov := map[string]any{
-		"evaluations":                merged.Evaluations,
-		"distinct_nontrivial":        distinct,
-		"rule":                       p.Rule(),
-		"samples":                    samples,
-		"events":                     merged.Events,
-		"features":                   merged.Features,
-		"max":                        merged.Max,
-		"distinct_sets":              sets,
-		"thresholds":                 th,
-		"thresholds_met":             met,
-		"children":                   children,
-		"discarded_by_model_budget":  merged.Discarded,
-		"known_findings_seen":        knownSeen,
-		"inconclusive_reasons":       merged.Inconclusive,
-		"case_indexes":               n,
+		"evaluations":               merged.Evaluations,
+		"distinct_nontrivial":       distinct,
+		"rule":                      p.Rule(),
+		"samples":                   samples,
+		"events":                    merged.Events,
+		"features":                  merged.Features,
+		"max":                       merged.Max,
+		"distinct_sets":             sets,
+		"thresholds":                th,
+		"thresholds_met":            met,
+		"children":                  children,
+		"discarded_by_model_budget": merged.Discarded,
+		"known_findings_seen":       knownSeen,
+		"inconclusive_reasons":      merged.Inconclusive,
+		"case_indexes":              n,
 	}
 	if exh != nil {
 		if e, what := exh.Exhaustive(tier); e {
-			cov["exhaustive"] = false // the run as a whole is an exploration …
+			cov["exhaustive"] = false     // the run as a whole is an exploration …
 			cov["exhaustive_part"] = what // … of which this stated finite part was enumerated completely
 		}
 	}
